@@ -41,8 +41,9 @@ def funcall_harness(save):
          'BV_VEC_DTOR': core.csym(ENG, r'^std::vector<chaiscript::Boxed_Value, std::allocator<chaiscript::Boxed_Value> >::~vector\(\)$'), 'CONV_SAVES': core.csym(ENG, CS), 'SAVE_PARAMS': int(save), 'STRING_LITERALS_OPAQUE': 1, 'VERIF_CALL_V1(f,a)': '__VERIF_v1_hook(f,a)'}
     for k, v in TIS.items(): d[k] = '((char*)&g_%s)' % v
     wit = ('witness: argument throws', 'witness: function expression throws', 'witness: not a function', 'witness: call returns', 'witness: return value', 'witness: dispatch failure reported', 'witness: callee exception passes')
+    # shapes: calls without arguments only - with arguments (a std::vector<Boxed_Value> built in a byte-addressed temporary) CBMC runs out of memory at 24 GB, not resolved
     h = Harness('X4.Fun_Call<%s>' % ('saving' if save else 'no-copy'), ENG, [rx], 'c10_funcall.c', stubs=stubs, cuts=cuts,
-                shapes=[dict(d, NA=n, _tag='args=%d' % n, _witness=tuple(w for w in wit if n or w != 'witness: argument throws')) for n in (0,)],      # with arguments (a std::vector<Boxed_Value> built in a byte-addressed temporary): out of memory at 24 GB, not resolved opts=['--unwind', '6', '--unwindset', 'main.0:8'], timeout=600, mem_gb=8,
+                shapes=[dict(d, NA=n, _tag='args=%d' % n, _witness=tuple(w for w in wit if n or w != 'witness: argument throws')) for n in (0,)], opts=['--unwind', '6', '--unwindset', 'main.0:8'], timeout=600, mem_gb=8,
                 inputs=['behav', 'call_beh', 'fn_is_function'], note='calls without arguments (with arguments: no verdict, out of memory); function expression abstract (returns or throws 6 kinds); the call: returns or throws one of 9 kinds')
     h.need_globals = ['_ZTIN10chaiscript9exception10eval_errorE', '_ZTIN10chaiscript11Boxed_ValueE'] + list(TIS.values())
     return h
